@@ -342,11 +342,14 @@ class Check(core.PropertyCheck):
         trs = frozenset({"udp", "tcp"})
         few = frozenset({("A", "plain"), ("CNAME", "comp"), ("TXT", "ptrlike")})
         # the case table in both directions (replies explored after a plain query), then histories over two ids
-        table = ctx.model_check(self.MODEL, self.model_constants(ctx.tier), dump=True, tag="_table")
-        hist = ctx.model_check(self.MODEL, {"QRows": few, "RRows": few, "Ids": frozenset({1, 2}),
-                                            "MaxMsgs": 4 if ctx.quick else 5, "Transports": trs, "ReplyAfter": few},
-                               dump=True, tag="_hist")
-        return [table, hist]
+        from concurrent.futures import ThreadPoolExecutor
+
+        hist_c = {"QRows": few, "RRows": few, "Ids": frozenset({1, 2}), "MaxMsgs": 4 if ctx.quick else 5,
+                  "Transports": trs, "ReplyAfter": few}
+        with ThreadPoolExecutor(2) as ex:  # two independent single-worker TLC runs side by side
+            ft = ex.submit(ctx.model_check, self.MODEL, self.model_constants(ctx.tier), dump=True, tag="_table")
+            fh = ex.submit(ctx.model_check, self.MODEL, hist_c, dump=True, tag="_hist")
+            return [ft.result(), fh.result()]
 
     @staticmethod
     def _ops(beh):
